@@ -225,6 +225,13 @@ const (
 	c16S3 = "projects/p/subscriptions/s3"
 	c16S4 = "projects/p/subscriptions/s4"
 	c16T3 = "projects/p/topics/t3"
+	c16T4 = "projects/p/topics/t4"
+	c16T5 = "projects/p/topics/t5"
+	c16T6 = "projects/p/topics/t6"
+	c16S5 = "projects/p/subscriptions/s5"
+	c16S6 = "projects/p/subscriptions/s6"
+	c16S7 = "projects/p/subscriptions/s7"
+	c16N2 = "projects/p/snapshots/n2"
 	c16N1 = "projects/p/snapshots/n1"
 )
 
@@ -292,6 +299,66 @@ func c16Prepare(s *c16Srv, env *c16Env) error {
 	if _, err := s.pub.DeleteTopic(ctx, &pubsubpb.DeleteTopicRequest{Topic: c16T3}); err != nil {
 		return err
 	}
+	// s5: detached (its topic t4 was deleted) while it holds a leased message
+	// s6: a name in use for the second time, the deleted predecessor not pruned
+	// t6: likewise for a topic; n2: a snapshot whose subscription was deleted
+	steps := []func() error{
+		func() error { _, e := s.pub.CreateTopic(ctx, &pubsubpb.Topic{Name: c16T4}); return e },
+		func() error {
+			_, e := s.sub.CreateSubscription(ctx, &pubsubpb.Subscription{Name: c16S5, Topic: c16T4})
+			return e
+		},
+		func() error {
+			_, e := s.pub.Publish(ctx, &pubsubpb.PublishRequest{Topic: c16T4, Messages: []*pubsubpb.PubsubMessage{{Data: []byte(`{"d":1}`)}, {Data: []byte(`{"d":2}`)}}})
+			return e
+		},
+		func() error {
+			_, e := s.sub.Pull(ctx, &pubsubpb.PullRequest{Subscription: c16S5, MaxMessages: 1, ReturnImmediately: true})
+			return e
+		},
+		func() error { _, e := s.pub.DeleteTopic(ctx, &pubsubpb.DeleteTopicRequest{Topic: c16T4}); return e },
+		func() error { _, e := s.pub.CreateTopic(ctx, &pubsubpb.Topic{Name: c16T5}); return e },
+		func() error {
+			_, e := s.sub.CreateSubscription(ctx, &pubsubpb.Subscription{Name: c16S6, Topic: c16T5})
+			return e
+		},
+		func() error {
+			_, e := s.pub.Publish(ctx, &pubsubpb.PublishRequest{Topic: c16T5, Messages: []*pubsubpb.PubsubMessage{{Data: []byte(`{"r":1}`)}}})
+			return e
+		},
+		func() error {
+			_, e := s.sub.DeleteSubscription(ctx, &pubsubpb.DeleteSubscriptionRequest{Subscription: c16S6})
+			return e
+		},
+		func() error {
+			_, e := s.sub.CreateSubscription(ctx, &pubsubpb.Subscription{Name: c16S6, Topic: c16T5})
+			return e
+		},
+		func() error {
+			_, e := s.pub.Publish(ctx, &pubsubpb.PublishRequest{Topic: c16T5, Messages: []*pubsubpb.PubsubMessage{{Data: []byte(`{"r":2}`)}}})
+			return e
+		},
+		func() error { _, e := s.pub.CreateTopic(ctx, &pubsubpb.Topic{Name: c16T6}); return e },
+		func() error { _, e := s.pub.DeleteTopic(ctx, &pubsubpb.DeleteTopicRequest{Topic: c16T6}); return e },
+		func() error { _, e := s.pub.CreateTopic(ctx, &pubsubpb.Topic{Name: c16T6}); return e },
+		func() error {
+			_, e := s.sub.CreateSubscription(ctx, &pubsubpb.Subscription{Name: c16S7, Topic: c16T1})
+			return e
+		},
+		func() error {
+			_, e := s.sub.CreateSnapshot(ctx, &pubsubpb.CreateSnapshotRequest{Name: c16N2, Subscription: c16S7})
+			return e
+		},
+		func() error {
+			_, e := s.sub.DeleteSubscription(ctx, &pubsubpb.DeleteSubscriptionRequest{Subscription: c16S7})
+			return e
+		},
+	}
+	for i, f := range steps {
+		if err := f(); err != nil {
+			return fmt.Errorf("prepare unusual states, step %d: %w", i, err)
+		}
+	}
 	return nil
 }
 
@@ -324,6 +391,15 @@ func nameAlts(valid string, kind string, set func(m proto.Message, v string), mo
 	}
 	for _, x := range more {
 		vals = append(vals, struct{ l, v string }{x[0], x[1]})
+	}
+	// valid names of resources in an unusual state (see c16Prepare)
+	switch kind {
+	case "subscriptions":
+		vals = append(vals, struct{ l, v string }{"valid(topic-deleted,message-leased)", c16S5}, struct{ l, v string }{"valid(name-reused,deleted-predecessor-unpruned)", c16S6})
+	case "topics":
+		vals = append(vals, struct{ l, v string }{"valid(name-reused,deleted-predecessor-unpruned)", c16T6}, struct{ l, v string }{"deleted", c16T4})
+	case "snapshots":
+		vals = append(vals, struct{ l, v string }{"valid(subscription-deleted)", c16N2})
 	}
 	var out []alt
 	for _, x := range vals {
